@@ -273,6 +273,9 @@ impl Scenario for C03S {
         if r.chance(1, 2) {
             sim["sndbuf"] = json!(2304);
         }
+        if variant != "inproc" {
+            sim["faults"] = json!(gen_env_faults(&mut r, 200));
+        }
         let nchan = r.range(2, 5);
         let nact = r.range(1, 4);
         let mut actors = vec![];
